@@ -236,7 +236,17 @@ function checkFile(ctx, c, p, text, ast, smapRes) {
       visitNodes(n.children, null)
       scopeStack.length -= 2
     } else if (n.kind === 'if') {
-      for (const b of n.children) { if (b.cond) visitAttr(b.cond, n.loc); if (b.else_loc) noteStart(b.else_loc); visitNodes(b.children, null) }
+      // the branches of a chain are siblings too: each one starts after the previous one ended
+      let prevBranchEnd = null
+      for (const b of n.children) {
+        if (b.cond) visitAttr(b.cond, n.loc)
+        if (b.else_loc) noteStart(b.else_loc)
+        const locs = b.children.map((x) => x.loc).filter(Boolean)
+        report.evals()
+        if (locs.length && prevBranchEnd && cmp(prevBranchEnd, [locs[0][0], locs[0][1]]) > 0) viol(`branches of a wx:if chain out of source order: a branch ending at ${JSON.stringify(prevBranchEnd)} precedes one starting at ${JSON.stringify(locs[0])}`, {})
+        if (locs.length) prevBranchEnd = [locs[locs.length - 1][2], locs[locs.length - 1][3]]
+        visitNodes(b.children, null)
+      }
     } else visitNodes(n.children, n.loc)
     if (n.kind !== 'if' && n.kind !== 'for') scopeStack.length -= pushed.length
   }
@@ -286,6 +296,8 @@ export function makeCases(ctx, n, fixed = null) {
     if (crlf) sources = sources.map(([p, s]) => [p, s.replace(/\n  /g, '\r\n  ').replace(/\n /g, '\r\n ')])
     // non-ASCII prologue so that byte, UTF-16 and character counts all differ before the first node
     if (r.bool(0.5)) sources = sources.map(([p, s]) => [p, r.pick(['é漢😀', '😀\n', '\u{10ffff} ', 'ｘ\r\n']) + s])
+    // branches written after the `wx:else` of a chain do not belong to it (they start nothing: a diagnostic, no reordering)
+    if (r.bool(0.06)) sources = sources.map(([p, s], k) => (k === sources.length - 1 ? [p, s + r.pick(['<i wx:if="{{a}}">1</i>\n<i wx:else>2</i><i wx:elif="{{b}}">3</i>', '<i wx:if="{{a}}">1</i><i wx:else>2</i>\n<i wx:else>3</i>', '<i wx:if="{{a}}"/><i wx:elif="{{b}}"/><i wx:else/><!-- c --><i wx:elif="{{c}}">x</i>'])] : [p, s]))
     cases.push({ id: cases.length, caseSeed, fs: fs_, sources, style: (crlf ? 'crlf' : 'lf') })
   }
   return cases
@@ -326,6 +338,24 @@ function runFindingWitnesses(ctx) {
     let m
     try { m = smapOf(src) } catch (e) { m = null }
     if (m && pred(m)) report.knownHit(slug, text)
+    else report.notes.push(`STALE-FINDING ${slug}: the recorded witness no longer reproduces`)
+  }
+  // a witness on the public AST itself: the wrapper the parser synthesises around a binding that is followed by text
+  {
+    const slug = 'synthesised-wrapper-located-at-closing-braces'
+    let hit = false
+    try {
+      const a = gevBatch('ast', [{ id: 'w', src: '<div>{{ a }}b</div>', path: 'p' }]).get('w')
+      const inside = (inner, outer) => cmp([inner[0], inner[1]], [outer[0], outer[1]]) >= 0 && cmp([inner[2], inner[3]], [outer[2], outer[3]]) <= 0
+      const walk = (n) => {
+        if (!n || typeof n !== 'object') return
+        if (Array.isArray(n)) { n.forEach(walk); return }
+        if (n.k === 'to_string' && n.operand && n.loc && n.operand.loc && !inside(n.operand.loc, n.loc)) hit = true
+        for (const v of Object.values(n)) walk(v)
+      }
+      walk(a)
+    } catch (e) { hit = false }
+    if (hit) report.knownHit(slug, '`<div>{{ a }}b</div>`: the ToStringWithoutUndefined node the parser wraps around the binding is located at the closing `}}` only (0:10-0:12), so its operand `a` (0:8-0:9) lies outside its parent, and the concatenation above it is located `}}b`')
     else report.notes.push(`STALE-FINDING ${slug}: the recorded witness no longer reproduces`)
   }
 }
